@@ -798,7 +798,6 @@ func c17Render(o c17Obs, withEv bool) string {
 	return core.S("ok", parts...)
 }
 
-
 func c17Check(c *core.Ctx, cases []c17Case) []core.Outcome {
 	outs := make([]core.Outcome, len(cases))
 	lines := make([]string, len(cases))
@@ -840,6 +839,7 @@ func c17Check(c *core.Ctx, cases []c17Case) []core.Outcome {
 		if outs[i].Fail != nil && !c17KnownZone(outs[i].Fail.Key) {
 			continue
 		}
+		outs[i].Buckets = append(outs[i].Buckets, "model-compared")
 		withEv := obs[i].evNum != nil
 		got := c17Render(obs[i], withEv)
 		want := res[i]
@@ -847,6 +847,7 @@ func c17Check(c *core.Ctx, cases []c17Case) []core.Outcome {
 			want = c17DropEv(want)
 		}
 		if want != got {
+			outs[i].Buckets = append(outs[i].Buckets, "model-mismatch")
 			outs[i].Fail = c17Fail("correspondence-break", "model:"+cases[i].mode(), "Lean model Groups.assign disagrees with the parser/writer tables for "+outs[i].Key, want, got)
 		}
 	}
@@ -885,7 +886,7 @@ func init() {
 		}
 		core.RunLeg(c, core.Leg[c17Case]{
 			Name: "G", Kind: "correspondence+oracle",
-			Rule: "random lists of 1-15 group-opening events (unnamed / named from a pool of 1-4 names incl. digit-like and non-ASCII names / explicitly numbered, dense and sparse / non-capturing), random nesting, spellings (?<>, (?'', (?P<> (RE2), leading-zero numbers, occasional balancing group; x {default, MaintainCaptureOrder, ECMAScript, RE2, ExplicitCapture and pairs}; every group wraps its own letter. non-trivial = at least two capturing groups; distinct by (mode, pattern). Each case: cross-API oracle on the Go engine (lists aligned/ascending, lookups inverse, Groups() order, GroupByName/GroupByNumber texts, documented numbering rule, \\k<name> \\N (?P=name) references, ${name} $N replacement) and Lean Groups.assign vs GetGroupNumbers/GetGroupNames/Code.Caps/Capsize/per-group numbers",
+			Rule:   "random lists of 1-15 group-opening events (unnamed / named from a pool of 1-4 names incl. digit-like and non-ASCII names / explicitly numbered, dense and sparse / non-capturing), random nesting, spellings (?<>, (?'', (?P<> (RE2), leading-zero numbers, occasional balancing group; x {default, MaintainCaptureOrder, ECMAScript, RE2, ExplicitCapture and pairs}; every group wraps its own letter. non-trivial = at least two capturing groups; distinct by (mode, pattern). Each case: cross-API oracle on the Go engine (lists aligned/ascending, lookups inverse, Groups() order, GroupByName/GroupByNumber texts, documented numbering rule, \\k<name> \\N (?P=name) references, ${name} $N replacement) and Lean Groups.assign vs GetGroupNumbers/GetGroupNames/Code.Caps/Capsize/per-group numbers",
 			Corpus: corpus, N: c.N(6000, 200000), Gen: c17Gen, Check: c17Check,
 		})
 	})
